@@ -997,6 +997,11 @@ where
     }
 }
 
+#[cfg(mini_moka_verif)]
+mod verif_hooks;
+#[cfg(mini_moka_verif)]
+pub use verif_hooks::{VerifDeque, VerifEntryMeta};
+
 #[derive(Default)]
 struct EntrySizeAndFrequency {
     weight: u64,
